@@ -16,6 +16,8 @@ EXPLANATION = (
     'size/scale in pixels and angle_pix = angle_sky + (north − 90°) — the statement\'s "lengths divided by the local scale; '
     'width axis at the stated angle from local east". Not decided: that astropy\'s directional_offset_by/world_to_pixel mean '
     'what the table says; distortion; the numerics.')
+EXPLANATION_ADDED = (' (R3) the conversion does not write through the region or the WCS (C13.R1 restricted to the sky->pixel path), so the second conversion of the same region is the first.')
+EXPLANATION += EXPLANATION_ADDED
 TRUSTED = ['SkyCoord.directional_offset_by(position_angle, separation): angle measured from north',
            'wcs.world_to_pixel returns (x, y)', 'np.arctan2(y, x), np.hypot']
 ASSUMPTIONS = ['undistorted WCS: a 1-arcsec northward step fixes the local scale and the north direction']
